@@ -44,5 +44,13 @@ man = dict(
     not_applicable=na,
 )
 json.dump(man, open("MANIFEST.json", "w"), indent=1)
-open("MANIFEST.hooks", "w").write("# guard: build tag `verif`. No source commits in /repo carry hooks: every driver and helper is an add-only file under\n# /verif/harness/overlay/<path in repo>, mapped into the build with `go -overlay` and carrying `//go:build verif`.\n# With the tag off (and without the overlay) /repo builds and tests exactly as the baseline.\n")
+import subprocess
+nontest = sorted(subprocess.run("find harness/overlay -type f ! -name '*_test.go' | grep -v '^harness/overlay/zzverif/'", shell=True, capture_output=True, text=True).stdout.split())
+open("MANIFEST.hooks", "w").write(
+    "# guard: build tag `verif`. No source commits in /repo carry hooks: every driver and helper is an add-only file under\n"
+    "# /verif/harness/overlay/<path in repo>, mapped into the build with `go -overlay` and carrying `//go:build verif`.\n"
+    "# With the tag off (and without the overlay) /repo builds and tests exactly as the baseline.\n"
+    "# Most overlay files are *_test.go drivers or main packages under zzverif/. The only non-test files overlaid INTO snapd packages\n"
+    "# (they export a test-only setter to a driver in another package; never copied into /repo):\n"
+    + "".join("#   %s\n" % f for f in nontest))
 print("claimed:", [c["property_id"] for c in checks])
